@@ -34,6 +34,14 @@ TEXT = {
         'note': NOTE_COMMON,
         'technique': 'Lean 4 proof: per-slot simp obligations + spec-level theorems (bv_omega for wrap-around); differential correspondence as tie',
     },
+    'C06': {
+        'text': 'Machine-checked theorem C06_step: with a request pending, Gen.Step (regenerated from cpu.go) equals the abstract interrupt controller written from '
+                'the property text (NMI always; maskable iff IFF1; modes 1/2 push PC and vector, clearing IFF1 and IFF2; consumed; refused = ordinary instruction, '
+                'request stays) for EVERY state — all control bits, PC/SP wrap, vector byte and I universally quantified; C06_pending by induction over any number of '
+                'Steps; EI/DI/RETN/RETI obligations. Mode 0 with supplied bytes is checked against a recorded description (KF-1/KF-2 known findings).',
+        'note': NOTE_COMMON + ' Mode 0 with supplied bytes: not proved; real code compared with Spec.stepKF by correspondence only.',
+        'technique': 'Lean 4 proof: regenerated processInterrupt/Step = abstract controller (simp), induction for pending requests; differential correspondence incl. known-finding classification',
+    },
     'C16': {
         'text': 'Machine-checked symbolic bit-vector theorems over the definitions regenerated from flag.go/z80.go: GetFlag = any-named-bit, '
                 'SetFlag = F|m, ResetFlag = F&~m for all masks and all F, frame (A and all other fields unchanged), constants = Z80 bit positions, '
